@@ -240,7 +240,7 @@ pub proof fn lemma_other_ns(s: Raw, k: Seq<u8>, v: Seq<u8>)
     inv(old(deps.storage).view())
 @ensures C02.transfer_exact C01
     r is Ok ==> step_transfer(old(deps.storage).view(), final(deps.storage).view(), info.sender@, recipient@, amount@)
-@ensures C01.transfer_inv C13
+@ensures C01.transfer_inv C13 C19 C20
     r is Ok ==> inv(final(deps.storage).view())
 @ensures C02.transfer_nomsg
     r is Ok ==> r->Ok_0.messages@.len() == 0
@@ -263,7 +263,7 @@ pub proof fn lemma_other_ns(s: Raw, k: Seq<u8>, v: Seq<u8>)
     inv(old(deps.storage).view())
 @ensures C01.burn_exact C02
     r is Ok ==> step_burn(old(deps.storage).view(), final(deps.storage).view(), info.sender@, amount@)
-@ensures C01.burn_inv C13
+@ensures C01.burn_inv C13 C19 C20
     r is Ok ==> inv(final(deps.storage).view())
 @ensures C02.burn_nomsg
     r is Ok ==> r->Ok_0.messages@.len() == 0
@@ -286,7 +286,7 @@ pub proof fn lemma_other_ns(s: Raw, k: Seq<u8>, v: Seq<u8>)
     inv(old(deps.storage).view())
 @ensures C01.mint_exact C13
     r is Ok ==> step_mint(old(deps.storage).view(), final(deps.storage).view(), info.sender@, recipient@, amount@)
-@ensures C01.mint_inv C13
+@ensures C01.mint_inv C13 C19 C20
     r is Ok ==> inv(final(deps.storage).view())
 @ensures C02.mint_nomsg
     r is Ok ==> r->Ok_0.messages@.len() == 0
@@ -329,7 +329,7 @@ pub open spec fn is_receive_msg(m: SubMsg<Empty>, contract: Seq<char>, sender: S
     inv(old(deps.storage).view())
 @ensures C02.send_exact C01
     r is Ok ==> step_transfer(old(deps.storage).view(), final(deps.storage).view(), info.sender@, contract@, amount@)
-@ensures C01.send_inv C13
+@ensures C01.send_inv C13 C19 C20
     r is Ok ==> inv(final(deps.storage).view())
 @ensures C02.send_notifies_once
     r is Ok ==> r->Ok_0.messages@.len() == 1 && is_receive_msg(r->Ok_0.messages@[0], contract@, info.sender@, amount, msg)
@@ -367,7 +367,7 @@ pub open spec fn step_update_minter(s: Raw, t: Raw, sender: Seq<char>, new_minte
     inv(old(deps.storage).view())
 @ensures C13.update_minter_exact
     r is Ok ==> step_update_minter(old(deps.storage).view(), final(deps.storage).view(), info.sender@, new_minter)
-@ensures C13.update_minter_inv C01
+@ensures C13.update_minter_inv C01 C19 C20
     r is Ok ==> inv(final(deps.storage).view())
 @ensures C02.update_minter_nomsg
     r is Ok ==> r->Ok_0.messages@.len() == 0
@@ -454,7 +454,7 @@ pub proof fn lemma_set_allow(s: Raw, o: Seq<char>, sp: Seq<char>, a: AllowanceRe
     inv(old(deps.storage).view())
 @ensures C02.increase_exact C19 C20
     r is Ok ==> step_increase(old(deps.storage).view(), final(deps.storage).view(), info.sender@, spender@, amount@, expires, &env.block)
-@ensures C19.increase_inv C01 C13 C20
+@ensures C19.increase_inv C01 C13 C20 C19
     r is Ok ==> inv(final(deps.storage).view())
 @ensures C02.increase_nomsg
     r is Ok ==> r->Ok_0.messages@.len() == 0
@@ -482,7 +482,7 @@ pub proof fn lemma_set_allow(s: Raw, o: Seq<char>, sp: Seq<char>, a: AllowanceRe
     inv(old(deps.storage).view())
 @ensures C02.decrease_exact C19 C20
     r is Ok ==> step_decrease(old(deps.storage).view(), final(deps.storage).view(), info.sender@, spender@, amount@, expires, &env.block)
-@ensures C19.decrease_inv C01 C13 C20
+@ensures C19.decrease_inv C01 C13 C20 C19
     r is Ok ==> inv(final(deps.storage).view())
 @ensures C02.decrease_nomsg
     r is Ok ==> r->Ok_0.messages@.len() == 0
@@ -594,7 +594,7 @@ pub proof fn lemma_set_allow(s: Raw, o: Seq<char>, sp: Seq<char>, a: AllowanceRe
 @end
 
 @fn contracts/cw20-base/src/contract.rs query_token_info
-@ensures C01.query_token_info
+@ensures C01.query_token_info C13
     r is Ok ==> tinfo(deps.storage.view()) is Some && r->Ok_0.total_supply@ == supply(deps.storage.view())
 @end
 
